@@ -20,9 +20,13 @@ pub const TEMPLATES: &[&str] = &[
     r#"forbid(principal, action, resource in ?resource) unless { principal.active };"#,
     r#"permit(principal == ?principal, action == Action::"view", resource == ?resource);"#,
     r#"@why("t") forbid(principal in ?principal, action, resource in ?resource) when { context.n > 3 };"#,
+    // templates with validation findings
+    r#"permit(principal == ?principal, action, resource) when { principal.nope == 1 };"#,
+    r#"forbid(principal, action == Action::"view", resource in ?resource) when { resource.owner.level == "x" || false };"#,
+    r#"permit(principal in ?principal, action, resource == ?resource) when { false };"#,
 ];
 /// (has ?principal, has ?resource)
-pub const TEMPLATE_SLOTS: &[(bool, bool)] = &[(true, false), (true, false), (false, true), (true, true), (true, true)];
+pub const TEMPLATE_SLOTS: &[(bool, bool)] = &[(true, false), (true, false), (false, true), (true, true), (true, true), (true, false), (false, true), (true, true)];
 
 /// policies that parse but do not validate against the schema, or that error at run time
 pub const ODD_POLICIES: &[&str] = &[
@@ -1169,7 +1173,7 @@ impl World for Frontends {
                     };
                     Op::Cli {
                         thread,
-                        cli: crate::worlds::frontends_cli::CliOp { kind, ps: rng.below(psets.len()) as u8, store: rng.below(stores.len()) as u8, schema, req, verbose: rng.pct(50), request_validation, request_json: rng.pct(40), faults, hash_seed: hs.next() },
+                        cli: crate::worlds::frontends_cli::CliOp { kind, ps: rng.below(psets.len()) as u8, store: rng.below(stores.len()) as u8, schema, req, verbose: rng.pct(50), request_validation, request_json: rng.pct(40), policy_json: rng.pct(30), faults, hash_seed: hs.next() },
                     }
                 }
             };
